@@ -222,23 +222,25 @@ def _facts(mut=None, sample=True, want_lines=True, guards=()):
                 except Exception as e: out['mini'].append(dict(rid=rid, op=k, variant=var, ok=False, harness_error=True, **exc_info(e)))
     out['entries'] = sorted(entries)
     # ---- pair lemma: the real _compatible_tensor_params on opaque tokens
-    ents = sorted({(tuple(w), hp) for (role, c, w, hp) in entries if role == 'in'} | {(('NO_QUANTIZE',), False)})
+    ents_by = {c: sorted({(tuple(w), hp) for (role, c2, w, hp) in entries if role == 'in' and c2 == c} | {(('NO_QUANTIZE',), False)}) for c in (False, True)}
+    ents = sorted(set(ents_by[False]) | set(ents_by[True]))
     pl = []
-    def mk(w, tok): return qtyping.OpToTensorParams(subgraph_op_id=0, transformations=[T[x] for x in w], parameters=tok)
-    for (w1, h1), (w2, h2) in itertools.product(ents, repeat=2):
-        for t1 in ([Token(1)] if h1 else [None]):
-            for t2 in ([Token(1), Token(2)] if h2 else [None]):
-                for ids in ((0, 0), (3, 5)):
-                    a = qtyping.OpToTensorParams(subgraph_op_id=ids[0], transformations=[T[x] for x in w1], parameters=t1)
-                    b = qtyping.OpToTensorParams(subgraph_op_id=ids[1], transformations=[T[x] for x in w2], parameters=t2)
-                    try: r = bool(params_generator._compatible_tensor_params(a, b))
-                    except Exception as e: r = dict(error=exc_info(e))
-                    pl.append(dict(w1=list(w1), p1=None if t1 is None else t1.cls, w2=list(w2), p2=None if t2 is None else t2.cls, ids=list(ids), result=r))
+    for const in (False, True):                     # two consumer entries of ONE tensor: both see a constant, or both see an activation
+        for (w1, h1), (w2, h2) in itertools.product(ents_by[const], repeat=2):
+            for t1 in ([Token(1)] if h1 else [None]):
+                for t2 in ([Token(1), Token(2)] if h2 else [None]):
+                    for ids in ((0, 0), (3, 5)):
+                        a = qtyping.OpToTensorParams(subgraph_op_id=ids[0], transformations=[T[x] for x in w1], parameters=t1)
+                        b = qtyping.OpToTensorParams(subgraph_op_id=ids[1], transformations=[T[x] for x in w2], parameters=t2)
+                        try: r = bool(params_generator._compatible_tensor_params(a, b))
+                        except Exception as e: r = dict(error=exc_info(e))
+                        pl.append(dict(const=const, w1=list(w1), p1=None if t1 is None else t1.cls, w2=list(w2), p2=None if t2 is None else t2.cls, ids=list(ids), result=r))
     out['pair_lemma'] = pl
     # lifting: _compatible_tensor_transformation_params(p, p) on one tensor listed twice, k consumers that are pairwise compatible -> True
     lift = []
     for k_ in (1, 2, 3):
-        for combo in itertools.product(ents, repeat=k_):
+      for const in (False, True):
+        for combo in itertools.product(ents_by[const], repeat=k_):
             cons = [qtyping.OpToTensorParams(subgraph_op_id=j, transformations=[T[x] for x in w], parameters=Token(1) if hp else None) for j, (w, hp) in enumerate(combo)]
             pair_ok = all(params_generator._compatible_tensor_params(c, cons[0]) for c in cons)
             for prod in (None, qtyping.OpToTensorParams(subgraph_op_id=9, transformations=[T.ADD_DEQUANTIZE], parameters=Token(1)), qtyping.OpToTensorParams(subgraph_op_id=9, transformations=[T.NO_QUANTIZE])):
